@@ -388,10 +388,15 @@ func Bubble(t *testing.T, fn func()) (failure string) {
 		})
 		returned = true
 	}()
-	select {
-	case msg := <-ch:
-		return msg
-	case <-time.After(bubbleWatchdog):
+	// The watchdog counts one-second ticks instead of waiting for one long timer: a machine that is
+	// paused or starved for a while (a VM snapshot, a suspended process) then costs one tick, not the
+	// whole budget, and the case is not declared stuck because the wall clock jumped.
+	for tick := time.Duration(0); tick < bubbleWatchdog; tick += time.Second {
+		select {
+		case msg := <-ch:
+			return msg
+		case <-time.After(time.Second):
+		}
 	}
 	// Real-time watchdog (this goroutine is outside the bubble). The bubble cannot detect a
 	// deadlock that involves a goroutine blocked on a sync.Mutex, because such a goroutine is
